@@ -1041,8 +1041,10 @@ impl Tuple {
             bitmap_size,
         )?;
 
-        // Copy existing deltas
+        // Copy existing deltas. Every delta starts on a DeltaHeader boundary (the reader aligns its
+        // cursor before each header, and the padding inside a delta was computed from such a start).
         if existing_deltas_size > 0 {
+            cursor = DeltaHeader::aligned_offset(cursor);
             let existing_deltas = &self.data.effective_data()[existing_deltas_start..];
             buffer[cursor..cursor + existing_deltas_size].copy_from_slice(existing_deltas);
         }
@@ -1160,8 +1162,11 @@ impl Tuple {
             }
         }
 
-        // Existing deltas
-        size += existing_deltas_size;
+        // Existing deltas (start on a DeltaHeader boundary)
+        if existing_deltas_size > 0 {
+            size = DeltaHeader::aligned_offset(size);
+            size += existing_deltas_size;
+        }
 
         size
     }
